@@ -127,7 +127,7 @@ theorem C01_total_wellformed (cfg : Config) (hwb : cfg.WellBehaved) (lr : LoadRe
             obtain ⟨_, hnd⟩ := batch_requests_of_fromJson xs b hb
             obtain ⟨bb, hbb, hjson⟩ := batch_ids_unique_no_raise cfg.handler hA ctx b.requests hnd
             have hwf := (keepSet_ids cfg.handler hA ctx b.requests).2
-            simp only [dispatch, Json.isArr, ↓reduceIte, hb, hs, Bool.false_eq_true, runBatch_eq]
+            simp only [dispatch, Json.isArr, ↓reduceIte, hb, hs, Bool.false_eq_true, runBatch_eq, assembleBatch]
             cases hk : keepSet (b.requests.map (fun r => (cfg.handler r ctx).1)) with
             | nil => left; rfl
             | cons r rs =>
